@@ -108,7 +108,7 @@ def weight_domain_instance(lead, K, N, wca, with_saliency):
                 key = tuple(0 if a in axes else fi[a] for a in range(nd))
                 groups.setdefault(key, []).append(sc[i])
             for key, vals in groups.items():
-                B.require('saliency-mass-positive', sp.gt(sp.sum(vals), 1e-10))
+                B.require('saliency-mass-positive', sp.gt(sp.sum(vals), 0.0))
         return inp
 
     def call(inp):
